@@ -472,7 +472,7 @@ func runGC(sp *SpecialCase) *Outcome {
 		caches[i] = nil
 	}
 	caches = nil
-	deadline := time.Now().Add(10 * time.Second)
+	deadline := time.Now().Add(30 * time.Second)
 	rounds := 0
 	for {
 		rounds++
@@ -489,9 +489,9 @@ func runGC(sp *SpecialCase) *Outcome {
 		}
 		if time.Now().After(deadline) {
 			if sim.BackgroundTasks() != before {
-				o.Violations = append(o.Violations, Violation{Rule: "janitor-leak", Detail: fmt.Sprintf("%d caches were dropped; after %d GC rounds (10 s) %d janitor tasks are still alive", sp.Caches, rounds, sim.BackgroundTasks()-before)})
+				o.Violations = append(o.Violations, Violation{Rule: "janitor-leak", Detail: fmt.Sprintf("%d caches were dropped; after %d GC rounds (30 s) %d janitor tasks are still alive", sp.Caches, rounds, sim.BackgroundTasks()-before)})
 			} else {
-				o.Violations = append(o.Violations, Violation{Rule: "contents-leak", Detail: fmt.Sprintf("%d caches were dropped and their janitors stopped, but only %d of %d stored payloads were collected after %d GC rounds (10 s)", sp.Caches, atomic.LoadInt64(&gcCollected), payloads, rounds)})
+				o.Violations = append(o.Violations, Violation{Rule: "contents-leak", Detail: fmt.Sprintf("%d caches were dropped and their janitors stopped, but only %d of %d stored payloads were collected after %d GC rounds (30 s)", sp.Caches, atomic.LoadInt64(&gcCollected), payloads, rounds)})
 			}
 			break
 		}
